@@ -970,6 +970,23 @@ func (rles RLEs) Stats() (numVoxels uint64, numRuns int32) {
 	return numVoxels, int32(len(rles))
 }
 
+// NumCoarseBlocks returns the number of blocks of a coarse sparse volume (runs of block
+// coordinates sent by a client) after checking that every run is positive and that the runs
+// together do not exceed max blocks, e.g., the number of blocks of the label they are part of.
+func (rles RLEs) NumCoarseBlocks(max uint64) (uint64, error) {
+	var n uint64
+	for _, rle := range rles {
+		if rle.length <= 0 {
+			return 0, fmt.Errorf("run of %d blocks at %s is not a positive length", rle.length, rle.start)
+		}
+		n += uint64(rle.length)
+		if n > max {
+			return 0, fmt.Errorf("coarse sparse volume has more than the %d blocks it can be part of", max)
+		}
+	}
+	return n, nil
+}
+
 // BlockRLEs is a single label's map of block coordinates to RLEs for that label.
 // The key is a string of the serialized block coordinate.
 type BlockRLEs map[IZYXString]RLEs
